@@ -10,8 +10,26 @@ def _run(kind, damages, seed, tid):
     return checkdriver.run_damage(kind, damages, seed, tid)
 
 
+def design_level(out, tier):
+    """CheckModel.tla: over EVERY small directory state the repair defined in CheckOps converges, is idempotent and keeps
+    undamaged items; one-pass pruning of emptied directories must fail."""
+    from ..tlc import run_tlc
+    from ..envctl import MachineryError
+    for cfg, what in ([('CheckModel_q.cfg', '<= 2 rows, 2 file ids')] if tier == 'quick' else [('CheckModel_q.cfg', '<= 2 rows, 2 file ids'), ('CheckModel.cfg', '<= 2 rows, 3 file ids')]):
+        res = run_tlc('CheckModel.tla', cfg, workers=8, timeout=1500)
+        if res.error or res.violation:
+            raise MachineryError('%s: %s %s\n%s' % (cfg, res.error, res.violation, res.out[-1500:]))
+        out.add_tlc(cfg, res, 'every directory state with %s, sizes {1,2}, files at the top level or in two nested directories, stray empty directories, counters off: '
+                              'FixConverges, FixIdempotent, FixPreservesUndamaged, OnlyDamageReported' % what)
+    res = run_tlc('CheckModel.tla', 'CheckModel_dev.cfg', workers=2, timeout=300)
+    if res.violation != 'OnePassConverges':
+        raise MachineryError('CheckModel_dev was expected to violate OnePassConverges, got %s %s' % (res.violation, res.error))
+    out.notes['design_deviations_rejected'] = ['one-pass pruning of emptied directories (the repaired defect F17-empty-parent) violates OnePassConverges']
+
+
 def run(prop, tier, seed):
     out = Outcome('C17', tier, seed)
+    design_level(out, tier)
     rng = random.Random(seed * 236887699 + 17)
     D = checkdriver.DAMAGES
     combos = [[]] + [[d] for d in D] + [list(c) for c in itertools.combinations(D, 2)]
